@@ -242,6 +242,17 @@ def dup_must_fail(ctx):
              ('DUP of a map made of tickets by MAP', [I('DROP'), PUSH(T.map_(T.NAT, T.NAT), [(1, 1), (2, 2)]), I('MAP', [I('DROP')] + mint_in_body), I('DUP')]),
              ('DUP of a list made of tickets by MAP', [I('DROP'), PUSH(T.list_(T.NAT), [1, 2]), I('MAP', [I('DROP')] + mint_in_body), I('DUP')]),
              ('DUP 2 of a map made of tickets by MAP', [I('DROP'), PUSH(T.map_(T.NAT, T.NAT), [(1, 1)]), I('MAP', [I('DROP')] + mint_in_body), PUSH(T.NAT, 0), I('DUP', N(2))])]
+    # a ticket put INTO an existing structure: comb UPDATE k, PAIR n, GET_AND_UPDATE — the structure's type changes under it
+    for w in (2, 3, 4):
+        for k in range(0, 2 * w - 1):
+            build = [PUSH(T.NAT, j) for j in range(w)] + [I('PAIR', N(w)) if w > 2 else I('PAIR')]
+            cases.append(('DUP after UPDATE %d on a comb of %d' % (k, w), build + [I('SWAP'), I('UPDATE', N(k)), I('DUP')]))
+            cases.append(('DUP 2 after UPDATE %d on a comb of %d' % (k, w), build + [I('SWAP'), I('UPDATE', N(k)), PUSH(T.NAT, 9), I('DUP', N(2))]))
+    cases.append(('DUP after PAIR 3', [PUSH(T.NAT, 1), PUSH(T.NAT, 2), I('PAIR', N(3)), I('DUP')]))
+    cases.append(('DUP after PAIR 3 (ticket last)', [PUSH(T.NAT, 1), I('SWAP'), PUSH(T.NAT, 2), I('DIG', N(2)), I('DIG', N(2)), I('PAIR', N(3)), I('DUP')]))
+    cases.append(('DUP of a map after GET_AND_UPDATE', [I('SOME'), I('EMPTY_MAP', TY(T.NAT), TY(tk)), I('SWAP'), PUSH(T.NAT, 1), I('GET_AND_UPDATE'), I('DROP'), I('DUP')]))
+    cases.append(('DUP of the rest after UNPAIR', [PUSH(T.NAT, 1), PUSH(T.NAT, 2), I('PAIR', N(3)), I('UNPAIR'), I('DROP'), I('DUP')]))
+    cases.append(('DUP of GET 2 of a comb', [PUSH(T.NAT, 1), PUSH(T.NAT, 2), I('PAIR', N(3)), I('GET', N(2)), I('DUP')]))
     # DUP n inside DIP k: the slot that is copied is counted from the top of the unprotected part
     for k in (1, 2):
         for n in (1, 2, 3):
